@@ -521,6 +521,14 @@ def m_u8_eq_nocase(eng, st, fr, t, name, rname, args):
     return K(low(a) == low(b))
 
 
+def m_as_slice(eng, st, fr, t, name, rname, args):
+    it = _iter_of(eng, st, args[0])
+    if it is None:
+        return NotImplemented
+    data = _iter_data(st, it)
+    return _mkslice(data[it.fields[0].v:])
+
+
 def m_into_iter(eng, st, fr, t, name, rname, args):
     v = eng.resolve(st, args[0])
     if isinstance(v, AggV) and v.kind in (BYTES_ITER, "bytes-split", "bytes-takewhile"):
@@ -713,7 +721,41 @@ def _same_cell(s, eng, t, idx):
     return it.fields[1].cells[idx]
 
 
+def ml_split_first(eng, st, fr, t, name, rname, args):
+    l = _list_of(eng, st, args[0])
+    if l is None:
+        return NotImplemented
+    if not l.cells:
+        return mk_option(None)
+    last = name.endswith("split_last")
+    head = l.cells[-1] if last else l.cells[0]
+    rest = l.cells[:-1] if last else l.cells[1:]
+    return mk_option(AggV("tuple", {0: RefV(head), 1: RefV(Cell(fdai.ListV(rest), "rest"))}))
+
+
+def ml_first(eng, st, fr, t, name, rname, args):
+    l = _list_of(eng, st, args[0])
+    if l is None:
+        return NotImplemented
+    if not l.cells:
+        return mk_option(None)
+    return mk_option(RefV(l.cells[-1] if name.endswith("last") else l.cells[0]))
+
+
+def ml_get(eng, st, fr, t, name, rname, args):
+    l = _list_of(eng, st, args[0])
+    i = eng.resolve(st, args[1])
+    if l is None or not (isinstance(i, K) and isinstance(i.v, int)):
+        return NotImplemented
+    return mk_option(RefV(l.cells[i.v])) if 0 <= i.v < len(l.cells) else mk_option(None)
+
+
 LIST_MODELS = {
+    "core::slice::split_first": ml_split_first,
+    "core::slice::split_last": ml_split_first,
+    "core::slice::first": ml_first,
+    "core::slice::last": ml_first,
+    "core::slice::get": ml_get,
     "core::slice::iter": ml_iter,
     "core::iter::IntoIterator::into_iter": ml_iter,
     "core::slice::len": ml_len,
@@ -760,6 +802,7 @@ FOLD_MODELS.update({
     "core::cmp::PartialEq::eq": m_eq_any,
     "core::cmp::PartialEq::ne": m_eq_any,
     "core::iter::IntoIterator::into_iter": m_into_iter,
+    "core::slice::Iter::as_slice": m_as_slice,
     "core::slice::starts_with": m_starts_with,
     "core::slice::ends_with": m_starts_with,
     "core::slice::first": m_slice_first,
